@@ -265,6 +265,12 @@ func (os *optimisticState) waitForRPCs() {
 	rpcCount := len(os.peerStates)
 	os.peerStatesLk.RUnlock()
 
+	// No ADD_PROVIDER RPC was issued (e.g. every peer of the lookup was
+	// unreachable): nothing will ever be sent on doneChan, so don't wait on it.
+	if rpcCount == 0 {
+		return
+	}
+
 	// returnThreshold can't be larger than the total number issued RPCs
 	if os.returnThreshold > rpcCount {
 		os.returnThreshold = rpcCount
